@@ -44,7 +44,13 @@ func accountNameRange(account *ast.Account) ast.Range {
 	return nameRange(account.Range.Start, account.Name)
 }
 
+// directiveCommodityRange is the range of the commodity of a commodity or price directive:
+// the range the parser recorded when it has an End (it covers the quotes of a quoted symbol,
+// like the range of a commodity in a posting), otherwise derived from the symbol.
 func directiveCommodityRange(commodity *ast.Commodity) ast.Range {
+	if commodity.Range.End != (ast.Position{}) {
+		return commodity.Range
+	}
 	return nameRange(commodity.Range.Start, commodity.Symbol)
 }
 
